@@ -131,6 +131,14 @@ def corpus(name, mod=None):
                 out.append(c)
         except Exception:
             pass
+    # modules that document only one or two numbers: valid neighbours found by search (the characters the module's own source
+    # mentions at every position, 0 / 9 at the first positions, the last character searched) -- other type letters, other
+    # layouts, leading zeros; at most 12 more
+    if len(out) < 6 and out and name not in ('vatin', 'eu.vat', 'gs1_128'):
+        try:
+            out += grow_valid(mod, out, 12)
+        except Exception:
+            pass
     # the country dispatchers have next to no numbers of their own: their corpus is derived from their constituents
     # (country code + documented valid numbers of every package that offers a `vat` module), as far as they accept them
     if name in ('vatin', 'eu.vat'):
@@ -168,6 +176,41 @@ def corpus(name, mod=None):
         except Exception:
             pass
     _corpus_cache[name] = out
+    return out
+
+
+def grow_valid(mod, known, limit):
+    from . import inputs
+    alpha = inputs.module_alphabet(mod)[:24]
+    seen = set(known)
+    try:
+        seen |= set(mod.compact(x) for x in known)
+    except Exception:
+        pass
+    out = []
+    for b0 in known[:2]:
+        try:
+            b = mod.validate(b0)
+        except Exception:
+            continue
+        if not isinstance(b, str) or not b.isascii() or len(b) < 2 or len(b) > 40:
+            continue
+        cands = [b[:i] + ch + b[i + 1:] for i in range(len(b)) for ch in alpha if ch != b[i]]
+        cands += [b[:i] + ch + b[i + 1:] for i in range(min(4, len(b) - 1)) for ch in '09' if ch != b[i]]
+        for t in cands:
+            for u in [t] + [t[:-1] + d for d in '0123456789X' if d != t[-1]]:
+                if u in seen:
+                    continue
+                try:
+                    ok = mod.is_valid(u) is True and mod.validate(u) == u
+                except Exception:
+                    ok = False
+                if ok:
+                    seen.add(u)
+                    out.append(u)
+                    break
+            if len(out) >= limit:
+                return out
     return out
 
 
